@@ -321,10 +321,14 @@ func renderVTT(r *rng, d vttDoc, canon bool, o vttOpts) []byte {
 			writeComment(cm)
 		}
 		if c.id != 0 {
-			b.WriteString(fmt.Sprint(c.id) + eol)
+			if !canon && r.chance(1, 6) { // zero-padded numbering: still the decimal number
+				b.WriteString(fmt.Sprintf("%0*d", 3+r.intn(3), c.id) + eol)
+			} else {
+				b.WriteString(fmt.Sprint(c.id) + eol)
+			}
 		} else if !canon && r.chance(1, 8) {
 			// an identifier that is not a number (the cue then has none), digits beyond what an integer holds included
-			b.WriteString([]string{"intro", "cue1", "1a", "#2", "99999999999999999999x", "18446744073709551615x", "18446744073709551616 y"}[r.intn(7)] + eol)
+			b.WriteString([]string{"intro", "cue1", "1a", "#2", "99999999999999999999x", "18446744073709551615x", "18446744073709551616 y", "0x1f", "0b11", "1_000", "0o17"}[r.intn(11)] + eol)
 		}
 		arrow := " --> "
 		if !canon {
